@@ -84,6 +84,10 @@ type cworld struct {
 	cfgs      map[string][]config.CaptureConfig
 	ctx       context.Context
 	cancel    context.CancelFunc
+	// openFault: interfaces whose capture source cannot be opened right now (injected fault);
+	// openFailed records the interfaces for which an open was attempted and failed
+	openFault  map[string]bool
+	openFailed map[string]bool
 }
 
 func newCWorld(r *sim.R) *cworld {
@@ -176,6 +180,20 @@ func canonDB(p string) string {
 
 // sourceInit is handed to the capture manager: every (re)started capture opens a new source.
 func (w *cworld) sourceInit(c *gpcapture.Capture) (gpcapture.Source, error) {
+	w.mu.Lock()
+	fail := w.openFault[c.Iface()]
+	if fail {
+		if w.openFailed == nil {
+			w.openFailed = map[string]bool{}
+		}
+		w.openFailed[c.Iface()] = true
+	}
+	w.mu.Unlock()
+	if fail {
+		// injected fault: the interface cannot be opened (it is down, or the ring cannot be set up)
+		w.r.Fault("capture source cannot be opened")
+		return nil, fmt.Errorf("simulated: cannot open capture source on %s: network is down", c.Iface())
+	}
 	s := simnet.NewSource(c.Iface(), w.yield)
 	w.mu.Lock()
 	w.sources[c.Iface()] = append(w.sources[c.Iface()], s)
